@@ -512,7 +512,20 @@ func c02Cookie(c *Ctx, key []byte, real, host, ip, at string, realExp int64, now
 		}
 		return now.Unix() < lim, false
 	}
-	switch c.T.Choose(22) {
+	switch c.T.Choose(23) {
+	case 22:
+		// under the right key, unexpired, right issuer, but without an access token the provider
+		// could honour: the claim is missing, empty or null
+		cl := base()
+		switch c.T.Choose(3) {
+		case 0:
+			delete(cl, "accessToken")
+		case 1:
+			cl["accessToken"] = ""
+		default:
+			cl["accessToken"] = nil
+		}
+		return cookieTrial{kind: "no-access-token", cookie: hs(cl, "HS256", key, "")}
 	case 0, 1:
 		ok, dc := timeOK(realExp)
 		return cookieTrial{kind: "real", cookie: real, accept: ok, dc: dc}
